@@ -89,6 +89,7 @@ pub fn gen_case(rng: &mut Rng, flavour: Flavour, thorough: bool) -> ModelCase {
     burst: if many { 30 + rng.below(170) as u32 } else { 0 },
     savepoints: rng.chance(1, 3),
     purge: !many && rng.chance(1, 5),
+    multi_delete: rng.chance(1, 2),
   };
   let mut ops = gen_ops(rng, &cfg, &p);
   if storage == StorageKind::Fs && !cfg.profile.compact_unsafe() && rng.chance(1, 3) {
@@ -607,6 +608,14 @@ pub fn run_case(case: &ModelCase, wroot: &Path, flavour: Flavour, stats: &mut St
           model.delete(*h, id);
           if !outcome.is_ok() {
             violate!(&props, "call-failed", "delete", step, format!("{} -> {}", op.short(), outcome.short()));
+          }
+        }
+        Op::DeleteMany { h, ids } => {
+          for id in ids {
+            model.delete(*h, id);
+          }
+          if !outcome.is_ok() {
+            violate!(&props, "call-failed", "delete_many", step, format!("{} -> {}", op.short(), outcome.short()));
           }
         }
         Op::Commit { h } => {
